@@ -51,6 +51,8 @@ class DataSampler(PointSampler):
                                                         dim=i)
             
             repeated_params = Points(repeated_tensor, params.space)
+        else:
+            repeated_params = params
         print("Dimension thing took", time.time() - start_time)
 
         # else we have to repeat data (meshgrid of both) and join the tensors together:
